@@ -313,13 +313,14 @@ pub fn x86_64_specs() -> Vec<RelSpec> {
         // psABI: "truncated to 32 bits ... must equal the original when zero-extended".
         r!(R_X86_64_32, Field::Bytes(4), unsigned(32), unsigned(32), 32, P),
         r!(R_X86_64_32S, Field::Bytes(4), s32, s32, 32, P),
-        // GNU: complain_overflow_bitfield, lld: checkIntUInt -> [-2^(n-1), 2^n).
-        r!(R_X86_64_16, Field::Bytes(2), either(16), either(16), 16, P),
-        // GNU: bitfield, lld: checkInt 16 -> the upper unsigned half is free.
-        r!(R_X86_64_PC16, Field::Bytes(2), signed(16), either(16), 16, P),
-        r!(R_X86_64_8, Field::Bytes(1), either(8), either(8), 8, P),
-        // GNU: complain_overflow_signed (2.40; bitfield in older releases), lld: checkInt 8.
-        r!(R_X86_64_PC8, Field::Bytes(1), signed(8), either(8), 8, P),
+        // Ground truth measured with ld 2.40 / ld.lld 14 (matrix in evidence/C12.json):
+        // GNU: complain_overflow_bitfield = [-2^n, 2^n), lld: checkIntUInt = [-2^(n-1), 2^n).
+        r!(R_X86_64_16, Field::Bytes(2), either(16), (-(1 << 16), 1 << 16), 16, P),
+        // GNU: bitfield [-2^16, 2^16), lld: checkInt 16.
+        r!(R_X86_64_PC16, Field::Bytes(2), signed(16), (-(1 << 16), 1 << 16), 16, P),
+        r!(R_X86_64_8, Field::Bytes(1), either(8), (-(1 << 8), 1 << 8), 8, P),
+        // GNU: complain_overflow_signed, lld: checkInt 8.
+        r!(R_X86_64_PC8, Field::Bytes(1), signed(8), signed(8), 8, P),
         r!(R_X86_64_DTPOFF64, Field::Bytes(8), ALL, ALL, 64, P),
         r!(R_X86_64_TPOFF64, Field::Bytes(8), ALL, ALL, 64, P),
         r!(R_X86_64_TLSGD, Field::Bytes(4), s32, s32, 32, P),
